@@ -755,9 +755,12 @@ func (e *c09env) judgeX(x c09xcase, res []c09callres) (c09xverdict, error) {
 		}
 		rel := e.relation(x, res, i)
 		vd.rels = append(vd.rels, rel)
-		ctxt := fmt.Sprintf("dim=%s call=%d/%d", x.Mode, i+1, len(x.Calls))
+		ctxt := "dim=" + x.Mode // the position of the call is in the description and the replay file, not in the signature
 		if len(x.Calls) > 1 {
 			ctxt += " history=" + rel.String()
+			if i == 0 {
+				ctxt = "dim=" + x.Mode + " history=first-call"
+			}
 		}
 		if len(c.Faults) > 0 {
 			ctxt += " fault=" + c09fptsLabel(c.Faults)
@@ -766,7 +769,7 @@ func (e *c09env) judgeX(x c09xcase, res []c09callres) (c09xverdict, error) {
 		}
 		vs, _ := tf.judge(c.c09case, res[i].out)
 		for _, v := range vs {
-			vd.viols = append(vd.viols, c09viol{ctxt + " " + v.sig, v.desc})
+			vd.viols = append(vd.viols, c09viol{ctxt + " " + v.sig, fmt.Sprintf("call %d of %d: %s", i+1, len(x.Calls), v.desc)})
 		}
 		pub := res[i].out.calls > 0
 		if pub {
